@@ -27,7 +27,7 @@ def strategy_(draw):
     rel = draw(st.sampled_from(['log2cpm', 'scale', 'permute_genes', 'permute_genes', 'extra_genes', 'negative']))
     factor = 1.0 if rel in ('log2cpm', 'scale') else None
     dt = ['float64', 'float32', 'int32', 'int64', 'uint16'] if rel != 'extra_genes' else ['float64', 'float32']
-    spec = copy.deepcopy(draw(gen.map_cases(factor=factor, max_cells=8, dtypes=dt)))
+    spec = copy.deepcopy(draw(gen.map_cases(factor=factor, max_cells=14 if rel == 'extra_genes' else 8, dtypes=dt)))
     n = len(spec['query']['cells'])
     g = len(spec['query']['genes'])
     t = {'rel': rel}
@@ -38,7 +38,16 @@ def strategy_(draw):
     elif rel == 'extra_genes':
         spec['query']['kind'] = 'float'
         spec['cfg']['normalization'] = 'log2CPM'
-        t['n_new'] = draw(st.integers(0, 3))
+        if draw(st.booleans()):
+            # a memory budget of the order of one chunk of this (tiny) query, several chunks, factor < 1:
+            # the relation must hold for every configuration, also when budgets are tight
+            spec['cfg']['max_gb'] = draw(st.sampled_from([5e-7, 1e-6, 2e-6, 4e-6, 1e-5]))
+            spec['cfg']['chunk_size'] = draw(st.integers(2, n + 3))
+            spec['cfg']['n_processors'] = draw(st.integers(1, 2))
+            if spec['cfg']['bootstrap_factor'] == 1.0:
+                spec['cfg']['bootstrap_factor'] = 0.5
+            spec['cfg']['bootstrap_factor_lookup'] = None
+        t['n_new'] = draw(st.integers(0, 8))
         t['drop_nonmarkers'] = draw(st.booleans())
         t['add_unused_ref'] = draw(st.booleans())
         t['seed'] = draw(st.integers(0, 2**31 - 1))
